@@ -968,7 +968,7 @@ class Inliner:
             for n in ast.walk(callee.body[0].value):
                 if isinstance(n, ast.Name):
                     uses[n.id] = uses.get(n.id, 0) + 1
-            if all(_is_simple(binding[p]) or uses.get(p, 0) <= 1 for p in callee.params) and \
+            if all(_is_simple(binding[p]) or _no_call(binding[p]) or uses.get(p, 0) <= 1 for p in callee.params) and \
                     not any(_names(binding[p]) & callee.scoped for p in callee.params) and not (set(callee.params) & callee.scoped):
                 e = _Subst(binding, {}, callee.kwarg, callee.extra_keywords).visit(_copy_tree(callee.body[0].value))
                 e = ast.copy_location(e, call)
@@ -1276,6 +1276,33 @@ class _QuantToLoop(ast.NodeTransformer):
                     ast.copy_location(o, st)
                     ast.fix_missing_locations(o)
                 return out
+        # `return {K: V for t in it if c}` / `x = {...}` with such a helper in K or V: the loop that fills the dictionary
+        if isinstance(st, (ast.Return, ast.Assign)) and isinstance(st.value, ast.DictComp) and len(st.value.generators) == 1 and \
+                not st.value.generators[0].is_async and \
+                (isinstance(st, ast.Return) or (len(st.targets) == 1 and isinstance(st.targets[0], ast.Name))):
+            comp = st.value
+            gen = comp.generators[0]
+            calls = [n for e in (comp.key, comp.value) for n in ast.walk(e) if isinstance(n, ast.Call) and
+                     ((isinstance(n.func, ast.Name) and n.func.id in self.names) or (isinstance(n.func, ast.Attribute) and n.func.attr in self.names))]
+            acc = st.targets[0].id if isinstance(st, ast.Assign) else 'collected__items'
+            used = {n.id for n in ast.walk(comp) if isinstance(n, ast.Name)}
+            # (key before value, as in the comprehension: the key must be a plain name / constant for `acc[K] = V` to keep that order)
+            if calls and acc not in used and isinstance(comp.key, (ast.Name, ast.Constant)):
+                inner = ast.Assign(targets=[ast.Subscript(value=ast.Name(id=acc, ctx=ast.Load()), slice=comp.key, ctx=ast.Store())],
+                                   value=comp.value, type_comment=None)
+                for c in reversed(gen.ifs):
+                    inner = ast.If(test=c, body=[inner], orelse=[])
+                loop = ast.For(target=gen.target, iter=gen.iter, body=[inner], orelse=[], type_comment=None)
+                for n in ast.walk(loop.target):
+                    if isinstance(n, ast.Name):
+                        n.ctx = ast.Store()
+                out = [ast.Assign(targets=[ast.Name(id=acc, ctx=ast.Store())], value=ast.Dict(keys=[], values=[]), type_comment=None), loop]
+                if isinstance(st, ast.Return):
+                    out.append(ast.Return(value=ast.Name(id=acc, ctx=ast.Load())))
+                for o in out:
+                    ast.copy_location(o, st)
+                    ast.fix_missing_locations(o)
+                return out
         if not isinstance(st, (ast.FunctionDef, ast.AsyncFunctionDef, ast.ClassDef)):
             self._blocks(st)
         return [st]
@@ -1401,9 +1428,14 @@ def normalise(trees, known=None, sources=None):
             if isinstance(n, (ast.FunctionDef, ast.AsyncFunctionDef)) and id(n) not in own and not getattr(n, '_inl_done', False):
                 inl.inline_function(n)
     # a one-expression helper passed as a value (`key=_tile_level`): the lambda it stands for (`key=lambda tile: tile.coord[2]`)
+    # (in another module the name can only have arrived with an inlined body of the helper's module: there it means the same function,
+    # unless that module binds the name itself)
     for rel, t in changed.items():
-        _FunctionValueToLambda({nm: c for nm, c in callees.items() if '.' not in nm and c.rel == rel and c.cls is None and not c.reason and
-                                c.pure_expr and not c.quantified}, report).visit(t)
+        bound_here = {n.id for n in ast.walk(t) if isinstance(n, ast.Name) and isinstance(n.ctx, (ast.Store, ast.Del))} | \
+            {a.arg for a in ast.walk(t) if isinstance(a, ast.arg)} | \
+            {n.name for n in ast.walk(t) if isinstance(n, (ast.FunctionDef, ast.AsyncFunctionDef, ast.ClassDef))}
+        _FunctionValueToLambda({nm: c for nm, c in callees.items() if '.' not in nm and (c.rel == rel or nm not in bound_here) and c.cls is None and
+                                not c.reason and c.pure_expr and not c.quantified}, report).visit(t)
     # drop the definitions nothing refers to any more (to a fixpoint: a dropped helper may hold the last reference to another)
     dropped = set()
     while True:
@@ -1420,6 +1452,28 @@ def normalise(trees, known=None, sources=None):
                 elif isinstance(n, ast.Constant) and isinstance(n.value, str) and n.value in refs:
                     refs[n.value] += 1      # getattr(obj, 'name')
         progress = False
+        # methods whose name is defined in several classes (keyed Class.name): dropped when the bare name is referred to nowhere any more
+        srefs = {nm.split('.', 1)[1]: 0 for nm in callees if '.' in nm and nm not in dropped}
+        if srefs:
+            for rel, t in alltrees.items():
+                for n in ast.walk(t):
+                    if isinstance(n, ast.Name) and n.id in srefs:
+                        srefs[n.id] += 1
+                    elif isinstance(n, ast.Attribute) and n.attr in srefs:
+                        srefs[n.attr] += 1
+                    elif isinstance(n, ast.Constant) and isinstance(n.value, str) and n.value in srefs:
+                        srefs[n.value] += 1
+            for nm, c in callees.items():
+                if '.' not in nm or nm in dropped or srefs.get(nm.split('.', 1)[1], 1) != 0 or c.rel not in changed or c.cls is None:
+                    continue
+                for qual, node, cls, container in function_index(changed[c.rel]):
+                    if qual == c.qual and cls is not None and cls.name == c.cls.name and node.name == c.name:
+                        container.remove(node)
+                        if not container:
+                            container.append(ast.copy_location(ast.Pass(), node))
+                        report.append(('dropped', c.qual, '-', 'every call was inlined'))
+                        dropped.add(nm)
+                        progress = True
         for nm, c in callees.items():
             if nm in dropped or '.' in nm or refs.get(nm, 1) != 0 or c.rel not in changed:
                 continue
@@ -1435,9 +1489,11 @@ def normalise(trees, known=None, sources=None):
             break
     from .simplify import simplify_tree
     from .localnames import restore_module
+    from .model import _LowerIfExp
     for rel, t in changed.items():
         renumber_inlined(t)
         # the inlined bodies bring their own named conditions and literal tables: same normal forms as at parse time
+        _LowerIfExp().visit(t)
         simplify_tree(t)
         restore_module(rel, t, sources[rel])
         ast.fix_missing_locations(t)
@@ -1526,6 +1582,68 @@ def inline_super_calls(trees):
         if changed:
             ast.fix_missing_locations(t)
             renumber_inlined(t)
+            reparent(t)
+            out[rel] = t
+    return out
+
+
+def inline_local_closures(trees, sources, reference_functions):
+    """a function defined inside another one that the reference tree does not have, referred to exactly once -- by a direct call in the
+    defining function itself -- is the statements it stands for: its body is written at the call (the names it reads from the
+    enclosing function are the same names there; its own locals are renamed on collision).  This is what is left of a callback handed
+    to a new helper once the helper was inlined.  trees: rel -> Module tree (not modified) -> {rel: new tree}"""
+    out = {}
+    for rel, t0 in trees.items():
+        cands = []
+        for qual, g, cls, _ in function_index(t0):
+            for st in g.body:
+                if isinstance(st, ast.FunctionDef) and '%s:%s.%s' % (rel, qual, st.name) not in reference_functions:
+                    cands.append((qual, st.name))
+        if not cands:
+            continue
+        t = _strip_parents(t0)
+        changed = False
+        for qual, g, cls, _ in function_index(t):
+            for name in [nm for q, nm in cands if q == qual]:
+                defs = [st for st in g.body if isinstance(st, ast.FunctionDef) and st.name == name]
+                if len(defs) != 1:
+                    continue
+                d = defs[0]
+                refs = [n for n in ast.walk(g) if isinstance(n, ast.Name) and n.id == name]
+                own_calls = [n for n in _own_nodes(g) if isinstance(n, ast.Call) and isinstance(n.func, ast.Name) and n.func.id == name]
+                if len(refs) != 1 or len(own_calls) != 1 or refs[0] is not own_calls[0].func:
+                    continue
+                # the names the closure reads from the enclosing function must not be re-bound by the closure itself, and the call
+                # must come after the definition in the same block or a nested one (always so for a def at the top of the body)
+                c = _Callee(rel, '%s.%s' % (qual, name), d, None)
+                if c.reason:
+                    continue
+                rep = []
+                inl = Inliner({name: c}, rep)
+                inl.cur_class = None
+                body_wo = [st for st in g.body if st is not d]
+                saved = g.body
+                g.body = body_wo
+                n = inl.inline_function(g)
+                if n == 1 and not any(isinstance(x, ast.Name) and x.id == name for x in ast.walk(g)):
+                    changed = True
+                else:
+                    g.body = saved      # not inlined (or only partly): left as it was -- the tree copy is discarded below
+                    changed = False
+                    t = None
+                    break
+            if t is None:
+                break
+        if t is not None and changed:
+            from .simplify import simplify_tree
+            from .localnames import restore_module
+            ast.fix_missing_locations(t)
+            renumber_inlined(t)
+            from .model import _LowerIfExp
+            _LowerIfExp().visit(t)
+            simplify_tree(t)
+            restore_module(rel, t, sources[rel])
+            ast.fix_missing_locations(t)
             reparent(t)
             out[rel] = t
     return out
